@@ -55,6 +55,8 @@ fn multi_target_cases(ctx: &mut Ctx, rng: &mut Sm64, thorough: bool) {
     for _ in 0..(if thorough { 20 } else { 8 }) { shapes.push((1 + rng.below(4) as usize, 1 + rng.below(4) as usize, 1, if rng.chance(0.5) { 1 } else { -1 })); }
     for (n, m, mode, extra) in shapes {
         let id = ctx.next_id();
+        let mut cr = rng.fork();
+        let rng = &mut cr;
         if !ctx.out.wanted(id) { continue; }
         let x = lattice(rng, n, 2);
         let bad = if extra != 0 { rng.below(m as u64) as usize } else { usize::MAX };
@@ -98,6 +100,8 @@ fn multi_class_cases(ctx: &mut Ctx, rng: &mut Sm64, thorough: bool) {
     for _ in 0..(if thorough { 20 } else { 8 }) { shapes.push((1 + rng.below(4) as usize, 2 + rng.below(3) as usize, 1, if rng.chance(0.5) { 1 } else { -1 })); }
     for (n, m, mode, extra) in shapes {
         let id = ctx.next_id();
+        let mut cr = rng.fork();
+        let rng = &mut cr;
         if !ctx.out.wanted(id) { continue; }
         let x = lattice(rng, n, 2);
         let bad = if extra != 0 { rng.below(m as u64) as usize } else { usize::MAX };
@@ -170,6 +174,8 @@ fn platt_direct_cases(ctx: &mut Ctx, rng: &mut Sm64, thorough: bool) {
     let special = [0.0, -0.0, 1.0, -1.0, 0.5, -2.0, 3.75, 1.0e-3, -1.0e-3];
     for k in 0..n {
         let id = ctx.next_id();
+        let mut cr = rng.fork();
+        let rng = &mut cr;
         if !ctx.out.wanted(id) { continue; }
         let is32 = k % 3 == 2;
         let mut a = if rng.chance(0.5) { *rng.pick(&special) } else { rng.gauss() * 2.0 };
